@@ -392,6 +392,11 @@ pub fn snapshot_memory(t: &Target, cfg: &DumpCfg, extra: &[(u64, u64)]) -> Vec<(
     // stacks: from the page of each thread's stack pointer to the end of its mapping
     for th in &t.threads {
         let rsp = t.read_u64(th.regs_addr + 80);
+        // a thread waiting with its stack pointer outside its own stack (e.g. in the guard pages in front of it):
+        // the stack mapping above is what a dump may capture
+        if th.stack_lo != 0 && !(th.stack_lo <= rsp && rsp < th.stack_hi) && th.stack_hi - th.stack_lo <= (1 << 20) {
+            ranges.push((th.stack_lo, th.stack_hi - th.stack_lo));
+        }
         if rsp != 0 {
             if let Some((_, b, p)) = containing(rsp) {
                 if p.starts_with('r') {
